@@ -378,13 +378,25 @@ def r03_5(ctx, run, info):
     ctx.check(len(extra) <= 1, "R03.5", run.where(), "at most one non-node entry is stored in the index", key_of(run, "extra-entries"))
 
 
+def _calls_sniffer(f, test):
+    from ..core import find_sniffer, same_func
+
+    repo = getattr(f.module, "repo", None)
+    if repo is None:
+        return "is_file_gzipped" in norm(test)
+    sn = getattr(repo, "_sniffer", None)
+    if sn is None:
+        sn = repo._sniffer = find_sniffer(repo, "R03.6")
+    return any(isinstance(c, ast.Call) and same_func(repo.resolve_call(f, c), sn) for c in ast.walk(test))
+
+
 def opener_shape(f):
     """(sniff test text, then-open text, else-open text) of the `if is_file_gzipped(p): h = BGZFile(p,'rb') else: h = open(p, mode)` idiom in f."""
     from ..paths import canon_test
 
     out = []
     for n in walk_own(f.node):
-        if isinstance(n, ast.If) and "is_file_gzipped" in norm(n.test):
+        if isinstance(n, ast.If) and _calls_sniffer(f, n.test):
             t, pol = canon_test(n.test, True)
             then, other = n.body, n.orelse
             if not other and then and isinstance(then[-1], (ast.Return, ast.Raise, ast.Continue, ast.Break)):
